@@ -38,9 +38,11 @@ def gen_func(rng, wrong_p=0.15, explicit_p=0.5):
     for _ in range(rng.randint(1, 3)):
         toks.append("B:" + ident("B", True))
         for _ in range(rng.randint(0, 4)):
-            k = rng.choice(["V", "V", "S", "C", "CF", "CV"])
-            toks.append(k if k in ("S", "C", "CF") else k + ":" + ident(k, False))
-        t = rng.choice(["R", "R", "I", "IV", "IVF", "K", "CB"])
+            # (CA: a void call through a named signature `%vsig = type void ()`)
+            k = rng.choice(["V", "V", "S", "C", "CF", "CV", "CA"])
+            toks.append(k if k in ("S", "C", "CF", "CA") else k + ":" + ident(k, False))
+        # (void terminators that take no number: invoke / callbr plain, with the full function type spelled out, through a named signature)
+        t = rng.choice(["R", "R", "I", "IV", "IVF", "IVA", "K", "CB", "CBV", "CBVF", "CBVA"])
         toks.append(t if t not in ("I", "K", "CB") else t + ":" + ident(t, False))
     return toks
 
@@ -59,6 +61,8 @@ def is_valid_llvm(toks):
 
 
 def gen(tier, rng, harness=None, driver=None):
+    # call sites spelled with a NAMED signature: a void one takes no number, the values behind it keep theirs
+    sig = ["!sig.alias %s %s %s" % (site, rv, var) for site in ("call", "invoke", "callbr") for rv in ("v", "i") for var in ("0", "1")]
     lines = []
     n = 800 if tier == "quick" else 40000
     # M-Core-3: numbering on real function bodies (written, nameless and wrong IDs) through the proved translation and the real parser
@@ -149,7 +153,7 @@ def gen(tier, rng, harness=None, driver=None):
                             s = " ".join(toks)
                             lines.append("num.parse " + s)
                             lines.append("!num.check " + s)
-    return lines
+    return lines + sig
 
 
 def extra(res, findings, tier, rng, harness, driver):
